@@ -546,6 +546,9 @@ def rule_usercode_reach(db: ProgramDB) -> List[Instance]:
                 roots.add(q)
                 continue
             cs = callers.get(q, set())
+            if f.name.startswith("__") and f.name.endswith("__"):
+                roots.add(q)     # called implicitly (construction, operators): an entry outside the evaluation protocol
+                continue
             if not cs and not f.name.startswith("_"):
                 roots.add(q)     # a public function nobody in the package calls: an external entry
             # a private function without callers is dead code and contributes no path
